@@ -433,6 +433,15 @@ func registerGob(m map[string]intrinsicFn) {
 		val := in.cloneValue(in.gobVals[k])
 		in.memo = saveMemo
 		in.abstractUsed = true
+		if st, dtp := in.jsonT[k], args[1].(IfaceV).T; st != nil && dtp != nil {
+			if pt, ok := dtp.Underlying().(*types.Pointer); ok && !types.Identical(st, pt.Elem()) {
+				conv, ok := in.jsonConv(val, st, pt.Elem(), in.load(tgt))
+				if !ok {
+					in.unsupportedf("json: conversion of boxed %v into %v", st, pt.Elem())
+				}
+				val = conv
+			}
+		}
 		in.store(tgt, val)
 		return IfaceV{}
 	}
@@ -502,6 +511,22 @@ func registerJSONBox(m map[string]intrinsicFn) {
 		in.memo = saveMemo
 		in.gobVals = append(in.gobVals, val)
 		k := len(in.gobVals) - 1
+		if in.jsonT == nil {
+			in.jsonT = map[int]types.Type{}
+		}
+		bt, bv := iv.T, iv.V
+		for bt != nil {
+			p, ok := bv.(PtrV)
+			if !ok || p.N == nil {
+				break
+			}
+			pt, ok := bt.Underlying().(*types.Pointer)
+			if !ok {
+				break
+			}
+			bv, bt = in.load(p), pt.Elem()
+		}
+		in.jsonT[k] = bt
 		bs := []*Term{in.tb.Const(8, 'J'), in.tb.Const(8, 'S'), in.tb.Const(8, 'N'), in.tb.Const(8, '#'),
 			in.tb.Const(8, uint64(k>>24)), in.tb.Const(8, uint64(k>>16)), in.tb.Const(8, uint64(k>>8)), in.tb.Const(8, uint64(k))}
 		in.abstractUsed = true
@@ -536,6 +561,15 @@ func registerJSONBox(m map[string]intrinsicFn) {
 		val := in.cloneValue(in.gobVals[k])
 		in.memo = saveMemo
 		in.abstractUsed = true
+		if st, dtp := in.jsonT[k], args[1].(IfaceV).T; st != nil && dtp != nil {
+			if pt, ok := dtp.Underlying().(*types.Pointer); ok && !types.Identical(st, pt.Elem()) {
+				conv, ok := in.jsonConv(val, st, pt.Elem(), in.load(tgt))
+				if !ok {
+					in.unsupportedf("json: conversion of boxed %v into %v", st, pt.Elem())
+				}
+				val = conv
+			}
+		}
 		in.store(tgt, val)
 		return IfaceV{}
 	}
